@@ -17,6 +17,8 @@ trv_core::install_clock_seam!();
 #[derive(Clone, Copy, Debug, PartialEq)]
 enum Pol {
     None,
+    /// retry at once
+    Zero,
     Fixed,
     Exponential,
     Jittered,
@@ -27,6 +29,7 @@ impl Pol {
     fn build(&self) -> ReconnectPolicy {
         match self {
             Pol::None => ReconnectPolicy::none(),
+            Pol::Zero => ReconnectPolicy::fixed(Duration::ZERO),
             Pol::Fixed => ReconnectPolicy::fixed(Duration::from_millis(10)),
             Pol::Exponential => ReconnectPolicy::exponential(Duration::from_millis(10), Duration::from_millis(35)),
             Pol::Jittered => ReconnectPolicy::exponential_random(Duration::from_millis(10), Duration::from_millis(35), 0.5),
@@ -37,7 +40,7 @@ impl Pol {
     fn delay_lo(&self, a: usize) -> f64 {
         let exp = |init: f64, m: f64, cap: f64| (init * m.powi(a as i32)).min(cap);
         match self {
-            Pol::None => 0.0,
+            Pol::None | Pol::Zero => 0.0,
             Pol::Fixed => 10.0,
             Pol::Exponential => exp(10.0, 2.0, 35.0),
             Pol::Jittered => exp(10.0, 2.0, 35.0) * 0.5,
@@ -213,7 +216,7 @@ fn run_one(cfg: &Cfg, script: &[u8], trace: bool) -> (Vec<(String, String)>, Str
 fn grid(tier: Tier) -> Vec<Cfg> {
     let mut v = vec![];
     for max in [Some(0u32), Some(1), Some(2), Some(3), None] {
-        for pol in [Pol::None, Pol::Fixed, Pol::Exponential, Pol::Jittered, Pol::Custom] {
+        for pol in [Pol::None, Pol::Zero, Pol::Fixed, Pol::Exponential, Pol::Jittered, Pol::Custom] {
             for retry_on_reconnect in [true, false] {
                 for predicate in [false, true] {
                     if tier == Tier::Quick && max == Some(3) && pol == Pol::Jittered {
